@@ -49,7 +49,11 @@ _TreeSet_update(BTree *self, PyObject *seq)
         if (v == NULL)
         {
             if (PyErr_Occurred())
+            {
+                /* the iterable itself failed:  report that, not a count */
+                ind = -1;
                 goto err;
+            }
             else
                 break;
         }
